@@ -21,6 +21,9 @@ type Ctx struct {
 	eff   *effects.Analysis
 	roles *Roles
 	reach map[*ssa.Function]map[*ssa.Function]bool
+	entryLk  map[*ssa.Function]map[string]locks.Mode
+	accesses []fieldAccess
+	guarded  map[string]string
 }
 
 // Locks returns engine L's result (computed once).
@@ -56,3 +59,8 @@ func IDs() []string {
 }
 
 func fname(fn *ssa.Function) string { return core.FuncName(fn) }
+
+// NewCtx creates a check context.
+func NewCtx(p *core.Program, r *core.Report, tier string) *Ctx {
+	return &Ctx{P: p, R: r, Tier: tier, guarded: map[string]string{}}
+}
